@@ -5,5 +5,12 @@ try:
     p = os.path.join(sysconfig.get_paths()['purelib'], 'zope')
     if os.path.isdir(p) and p not in list(zope.__path__):
         zope.__path__.append(p)
+    # mutation testing only: VERIF_REPO=<scratch worktree> makes every process of a check (children included) import
+    # zope.testrunner from that tree instead of the editable install's /repo/src (whose nspkg .pth wins over PYTHONPATH)
+    alt = os.environ.get('VERIF_REPO')
+    if alt and os.path.isdir(os.path.join(alt, 'src', 'zope', 'testrunner')):
+        altz = os.path.join(alt, 'src', 'zope')
+        rest = [q for q in zope.__path__ if os.path.isdir(os.path.join(q, 'testrunner')) is False]
+        zope.__path__[:] = [altz] + [q for q in rest if q != altz]
 except Exception:
     pass
